@@ -451,6 +451,12 @@ def gen_hstore_case(rng):
       ops.append({'k': 'seqr', 'p': p})
     elif k.startswith('hopen'):
       m = k[-1]
+      if p not in written:
+        if m == 'r' and rng.chance(0.85):
+          continue                  # mostly open what exists
+        if m != 'r' and '/' in p[len('/mem/'):]:
+          ops.append({'k': 'save', 'p': p, 'v': tg.tree(1)})   # open() does not create directories
+          written.append(p)
       ops.append({'k': 'hopen', 'p': p, 'm': m})
       live.append([nh, p, m])
       nh += 1
